@@ -954,6 +954,10 @@ def body(ctx):
             try:
                 res = [int(v) for v in np.asarray(sutils.pareto_front(arr, o)).ravel()]
             except Exception as e:
+                if o not in (1, -1):
+                    # orientations other than +1 / -1 are outside the property: code that refuses them is as good
+                    ctx.count(("paretox_refused", it), False, "pareto_front/extended/orientation_refused")
+                    return
                 ctx.disagree("C20/paretox: pareto_front raises on an array of doubles", {**case, "error": str(e)[:200]})
                 return
             has_inf = any(abs(v) == float("inf") for r in d for v in r)
@@ -1496,7 +1500,16 @@ def body(ctx):
                 if rep == "ok nan":
                     ok = all(v != v for v in impl)
                 else:
-                    ok = toks[0] == "ok" and lists_close([C.h2f(t) for t in toks[1].split(",")], impl)
+                    # a quantile interpolates two order statistics; formulas that are equal in exact arithmetic
+                    # ((a+b)/2, a+(b-a)t, b-(b-a)(1-t)) differ by roundings of the size of those two values, which
+                    # is many ulps of the RESULT when they cancel: the allowance is 4 ulps of the larger neighbour
+                    mv = [C.h2f(t) for t in toks[1].split(",")] if toks[0] == "ok" else None
+                    fin_s = sorted(v for v in C.parse_flist(req.split(" ")[1]) if v == v and abs(v) != float("inf"))
+                    ok = mv is not None and len(mv) == len(impl) == 5
+                    for a_, b_, q_ in zip(mv or [], impl, (0.0, 0.25, 0.5, 0.75, 1.0)):
+                        lo_ = min(int(math.floor((len(fin_s) - 1) * q_)), len(fin_s) - 1)
+                        scale_ = max(abs(fin_s[lo_]), abs(fin_s[min(lo_ + 1, len(fin_s) - 1)]))
+                        ok = ok and (ulps_close(a_, b_) or abs(a_ - b_) <= 4 * math.ulp(scale_))
             elif kind == "vgrid_none":
                 ok = rep == "ok none"
         except Exception:
@@ -1543,9 +1556,14 @@ def body(ctx):
         if exact_r:
             toks = next(rep3).split(" ")
             mq = [Fraction(t) for t in C.parse_list(toks[1])] if toks[0] == "ok" else None
-            if mq is None or len(mq) != len(ys_) or not all(a == Fraction(b) or (abs(b) < 1e-290 and abs(float(a) - b) < 1e-300) for a, b in zip(mq, ys_)):
-                ctx.disagree("C20/normr: kde_y is not the rounded normalisation of the kde, bit for bit", {"request": req[:800], "impl": ys_[:8], "model": [float(v) for v in (mq or [])[:8]], **case})
-            ctx.hist["Violin/kde_y_bit_for_bit"] = ctx.hist.get("Violin/kde_y_bit_for_bit", 0) + 1
+            # gaussian_kde is external: the harness' kde values equal the code's only if both sum the kernels in the same
+            # order, which the property does not fix. Bit-for-bit agreement is therefore recorded as evidence (on the
+            # unchanged code every profile agrees); a disagreement is raised only beyond the allowance of the Float instance
+            if mq is None or len(mq) != len(ys_) or not all((b != b) or abs(float(a) - b) <= 1e-9 for a, b in zip(mq, ys_)):
+                ctx.disagree("C20/normr: kde_y differs from the rounded normalisation of the kde", {"request": req[:800], "impl": ys_[:8], "model": [float(v) for v in (mq or [])[:8]], **case})
+            exact_ = mq is not None and len(mq) == len(ys_) and all(a == Fraction(b) or (abs(b) < 1e-290 and abs(float(a) - b) < 1e-300) for a, b in zip(mq, ys_) if b == b)
+            key_ = "Violin/kde_y_bit_for_bit" if exact_ else "Violin/kde_y_within_allowance_only"
+            ctx.hist[key_] = ctx.hist.get(key_, 0) + 1
 
     mark('violin_profiles')
     ctx.extra["rule"] = __doc__.split("Cases:")[1].strip()
